@@ -658,6 +658,11 @@ class Gen:
             out = m.exec_stmt(["const", draw(st.integers(lo, hi))])
             return out[1][0]
         cands = [i for i, t in enumerate(m.types) if t in allowed]
+        # chains: the OUTPUT of the previous operation (with whatever internal form that operation gave it), and that operation's own
+        # operands, are preferred as inputs of the next one - (a*b)/b, (x>>k)|y, from_bits(...).assert_positive(), hash of a digest
+        near = [i for i in cands if i in getattr(self, "recent", ())]
+        if near and not safe and draw(st.integers(0, 2)) == 0:
+            return draw(st.sampled_from(near))
         if cands and not safe and draw(st.integers(0, 3)) != 0:
             return draw(st.sampled_from(cands))
         if safe:
@@ -709,6 +714,7 @@ class Gen:
             stmt.append("inplace")
             self.labels.add("inplace")
         out = m.exec_stmt(stmt)
+        self.recent = list(refs) + (list(out[1]) if out[0] == "ok" else [])
         self.labels.add("op:" + op.name)
         self.labels.add("kinds:" + op.name + ":" + ts)
         if m.depth:
@@ -784,3 +790,36 @@ def generate(draw, st, cfg, n_stmts, after=None, **gen_kw):
         if m.raised:
             break
     return m, g.labels
+
+
+# ---------------------------------------------------------------------------
+# deterministic chains: the output of one operation is the input of the next, together with the first operation's own operands
+
+def chain_programs(b, p="bn128", r=0):
+    """programs "in a, in b, op1(a, b) -> t, op2(t, a or b) [, op3]" for operation pairs that undo or reuse each other: (a*b)/b,
+    (a+b)-b, (a<<k)>>k, from_bits(to_bits(a)), -(-a), (a^b)^b, (a//b)*b + a%b, (a>>k)|b, (a*k)+c then /k, x**0 used again ..."""
+    lim = 1 << b
+    vals = [(6, 7), (7, 6), (3, 3), (1, 5), (lim // 2 - 1, 2), (0, 4), (5, 1), (-3, 2), (12, 4)]
+    progs = []
+    pairs = [("mul", "truediv", 1), ("mul", "truediv", 0), ("add", "sub", 1), ("add", "sub", 0), ("sub", "add", 1), ("xor", "xor", 1), ("xor", "xor", 0),
+             ("mul", "floordiv", 1), ("mul", "mod", 1), ("or", "and", 0), ("and", "or", 1), ("floordiv", "mul", 1), ("mod", "add", 1),
+             ("lt", "mul", 0), ("eq", "add", 1), ("sub", "lt", 0), ("add", "mul", 0), ("mul", "add", 1)]
+    for a, c in vals:
+        for op1, op2, which in pairs:
+            for kinds in (("priv", "priv"), ("priv", "pub")):
+                stmts = [["in", kinds[0], "I", a], ["in", kinds[1], "I", c], ["op", op1, [0, 1]], ["op", op2, [2, which]], ["op", "mul", [3, 3]]]
+                progs.append({"cfg": {"p": p, "b": b, "r": r, "ignore": False}, "stmts": stmts})
+        for k in (1, 2, b - 1):
+            for tail in (["op", "or", [3, 1]], ["op", "xor", [3, 1]], ["op", "and", [1, 3]], ["op", "lshift", [3, 2]], ["op", "add", [3, 3]]):
+                stmts = [["in", "priv", "I", abs(a)], ["in", "priv", "I", (lim - 1) ^ abs(c)], ["const", k], ["op", "rshift", [0, 2]], tail]
+                progs.append({"cfg": {"p": p, "b": b, "r": r, "ignore": False}, "stmts": stmts})
+            stmts = [["in", "priv", "I", abs(a)], ["const", k], ["op", "lshift", [0, 1]], ["op", "rshift", [2, 1]], ["op", "sub", [3, 0]]]
+            progs.append({"cfg": {"p": p, "b": b, "r": r, "ignore": False}, "stmts": stmts})
+        # scaled sums divided again, bits reassembled and checked, double negation / inversion, x ** 0 reused
+        progs.append({"cfg": {"p": p, "b": b, "r": r, "ignore": False}, "stmts": [["in", "priv", "I", a], ["in", "priv", "I", c], ["const", 4], ["op", "mul", [1, 2]],
+                                                                                ["op", "add", [0, 3]], ["op", "add", [4, 3]], ["op", "truediv", [5, 2]]]})
+        progs.append({"cfg": {"p": p, "b": b, "r": r, "ignore": False}, "stmts": [["in", "priv", "I", abs(a) % lim], ["op", "to_bits", [0]], ["op", "from_bits", [1]], ["op", "check_positive", [2]],
+                                                                                ["op", "sub", [2, 0]]]})
+        progs.append({"cfg": {"p": p, "b": b, "r": r, "ignore": False}, "stmts": [["in", "priv", "I", a], ["op", "neg", [0]], ["op", "neg", [1]], ["op", "abs", [1]], ["op", "sub", [2, 0]]]})
+        progs.append({"cfg": {"p": p, "b": b, "r": r, "ignore": False}, "stmts": [["in", "priv", "I", a], ["const", 0], ["op", "pow", [0, 1]], ["op", "add", [2, 2]], ["op", "mul", [3, 0]], ["op", "val", [2]]]})
+    return progs
